@@ -270,7 +270,12 @@ func verifyFunction(P *Program, db *SpecDB, ti *TypeInfo, fn *ssa.Function, c *C
 			e.unsupportedf("axiom %s: %v", ax.Name, err)
 			continue
 		}
-		e.emit("; axiom " + ax.Name)
+		if ax.RepVar != "" {
+			// the relevance filter judges a definition by what it is defined FROM (see irrelevantAxioms)
+			e.emit("; axiom " + ax.Name + " defines G!" + ax.RepVar)
+		} else {
+			e.emit("; axiom " + ax.Name)
+		}
 		lo := len(e.out)
 		e.assert(t)
 		e.axiomLines = append(e.axiomLines, axiomLine{lo: lo, hi: len(e.out), syms: ghostSymbols(t)})
@@ -288,6 +293,16 @@ func verifyFunction(P *Program, db *SpecDB, ti *TypeInfo, fn *ssa.Function, c *C
 		}
 		e.assert(t)
 		reqs = append(reqs, t)
+	}
+	// trusted requires: environment assumptions of the verified body that callers are not asked to establish
+	for _, rq := range c.TrustedRequires {
+		t, err := env.evalBool(rq.E)
+		if err != nil {
+			e.unsupportedf("trusted requires %s: %v", rq.Src, err)
+			continue
+		}
+		e.assert(t)
+		e.trustedClauses = append(e.trustedClauses, "trusted requires of "+c.Key+": "+rq.Src)
 	}
 	// the function's own panic condition is evaluated now, so that its definitions are in every obligation's prefix
 	panicCond := ""
@@ -351,6 +366,9 @@ func verifyFunction(P *Program, db *SpecDB, ti *TypeInfo, fn *ssa.Function, c *C
 				result = &r2
 			}
 		}
+		if c.Rederives {
+			e.rederive(db, P, final)
+		}
 		penv := e.envFor(fr, final)
 		penv.old = fr.entry
 		penv.fr = nil // postconditions talk about parameters and results only
@@ -359,7 +377,7 @@ func verifyFunction(P *Program, db *SpecDB, ti *TypeInfo, fn *ssa.Function, c *C
 		e.addObl(&Obligation{Name: "cover:return", Kind: "cover", Cover: true, Clause: "a normal return is reachable under the precondition", Reach: final.reach, Goal: "false"})
 		for i, en := range c.Ensures {
 			if en.Trusted {
-				e.trustedClauses = append(e.trustedClauses, c.Key+": "+en.Src)
+				e.trustedClauses = append(e.trustedClauses, "trusted ensures of "+c.Key+": "+en.Src)
 				continue
 			}
 			g, err := penv.evalBool(en.E)
@@ -376,7 +394,10 @@ func verifyFunction(P *Program, db *SpecDB, ti *TypeInfo, fn *ssa.Function, c *C
 		if c.HasModifies {
 			fenv := e.envFor(fr, fr.entry)
 			fenv.fr = nil
-			fp, err := fenv.footprintOf(c)
+			fp, err := fenv.footprintOfTargets(append(append([]Expr{}, c.Modifies...), c.HiddenMod...), c.ModWhen)
+			if len(c.HiddenMod) > 0 {
+				e.trustedClauses = append(e.trustedClauses, "hidden modifies of "+c.Key+": "+strings.Join(c.HiddenSrc, ", "))
+			}
 			if err != nil {
 				e.unsupportedf("modifies: %v", err)
 			} else if !fp.all {
@@ -432,6 +453,44 @@ func verifyFunction(P *Program, db *SpecDB, ti *TypeInfo, fn *ssa.Function, c *C
 	res.Obls = e.obls
 	res.Unsupported = dedupe(e.unsupported)
 	return res
+}
+
+// rederive: the ghost variables defined by `representation` declarations get a fresh value in st that satisfies the
+// defining equation in st (a ghost assignment g := \lambda xs. expr(st)): sound because the declarations are
+// definitional (checkRepresentations). The variables count as written: the frame clause is checked over them.
+func (e *Enc) rederive(db *SpecDB, P *Program, st *State) {
+	var reps []*Axiom
+	for _, ax := range db.Axioms {
+		if ax.RepVar == "" || (ax.PkgPath != "" && P.lookupPkg(ax.PkgPath) == nil) {
+			continue
+		}
+		g, ok := db.GhostVars[ax.RepVar]
+		if !ok {
+			continue
+		}
+		sort, _, err := e.resolveTypeExpr(g.T, g.PkgPath, g.Imports)
+		if err != nil {
+			e.unsupportedf("representation %s: %v", ax.Name, err)
+			continue
+		}
+		e.heapGet(st, "G|"+g.Name, sort)
+		reps = append(reps, ax)
+	}
+	// first every represented variable is havocked, then the definitions are stated (no definition mentions a
+	// represented variable, so the order is immaterial)
+	for _, ax := range reps {
+		e.heapHavoc(st, "G|"+ax.RepVar)
+	}
+	for _, ax := range reps {
+		env := &Env{e: e, vars: map[string]*Val{}, st: st, old: st, pkgPath: ax.PkgPath, imports: ax.Imports}
+		t, err := env.evalBool(ax.E)
+		if err != nil {
+			e.unsupportedf("representation %s: %v", ax.Name, err)
+			continue
+		}
+		e.emit("; rederived " + ax.Name)
+		e.assert(t)
+	}
 }
 
 func maxInt(a, b int) int {
@@ -505,6 +564,9 @@ func (e *Enc) frameObligations(written map[string]bool, entry *State, final *Sta
 		}
 		if fp.whole[k] && fp.wholeCond[k] != "" {
 			conds = append(conds, not(fp.wholeCond[k]))
+		}
+		for _, i := range e.hiddenIdx[k] {
+			conds = append(conds, not(eq(sk, i))) // hidden target of a callee: outside every caller's frame
 		}
 		refIndexed := ks == "Int" && !strings.HasPrefix(k, "G|")
 		if strings.HasPrefix(k, "G|") {
